@@ -387,7 +387,8 @@ class FormatPath(Contract):
         self.path = ObjV(z3.Const('path', Obj))
         self.is_dir, self.dir_only = z3.Bool('is_dir'), z3.Bool('dir_only')
         self.mark, self.pathlib = z3.Bool('self_mark'), z3.Bool('self_pathlib')
-        fields = dict(mark=Bool(self.mark), pathlib=Bool(self.pathlib), empty=ObjV(z3.Const('self_empty', Obj)))
+        fields = dict(mark=Bool(self.mark), pathlib=Bool(self.pathlib), empty=ObjV(z3.Const('self_empty', Obj)), specials=V('tuple', None, items=[Str('.'), Str('..')]),
+                      sep=ObjV(z3.Const('self_sep', Obj)), seen=ObjV(z3.Const('self_seen', Obj)), nounique=Bool(z3.Bool('self_nounique')))
         return dict(params=dict(self=selfobj(), path=self.path, is_dir=Bool(self.is_dir), dir_only=Bool(self.dir_only)), fields=fields, pre=[],
                     ghost={'$unique_args': []})
 
